@@ -111,6 +111,7 @@ var c16Hists = []c16Hist{
 	{"h_two_kbs", nil, "v1"},
 	{"h_dup_identical", nil, "v1"},
 	{"h_remove_among_kbs", []string{"v1"}, ""},
+	{"h_deleted_name", []string{"v1"}, ""},
 }
 
 func VerifC16History(storeLoad int) {
